@@ -35,6 +35,19 @@ Theorem c05_refused_append_unchanged : forall ph l x, atomic same (api_append ph
 Proof. exact atomic_api_append. Qed.
 Print Assumptions c05_refused_append_unchanged.
 
+(* Feature.data = x, accepted (x an array or a data frame of the tag's block): the feature's data IS x - the link
+   resolves to x's address - and the feature records, hence presents, x's kind *)
+From NixV Require Import Proofs.FeatureProofs.
+Theorem c05_feature_data_is_alias : forall ph x' now s s' p x,
+  nth_error (hs s) (N.to_nat ph) = Some p -> nth_error (hs s) (N.to_nat x') = Some x ->
+  (ha p < length (nodes (sto s)))%nat ->
+  api_set_link ph RFeatureData (Some x') now s = (s', inl tt) ->
+  child (sto s') (ha p) (TS s_data) = Some (ha x) /\
+  get_attr (sto s') (ha p) s_target_type =
+    Some (AText (TS (if ekind_eqb (hk x) KDataFrame then s_DataFrame else s_DataArray))).
+Proof. exact feature_data_set. Qed.
+Print Assumptions c05_feature_data_is_alias.
+
 (* ---- dimensions linked to an array (model: Pure/DimLink.v, tied by the dimension histories) *)
 From NixV Require Import Pure.DimLink Proofs.DimLinkProofs.
 From Coq Require Import ZArith List.
